@@ -652,10 +652,13 @@ def run_cases(ctx, mode, lines, extra=(), timeout=600):
 
 FIELDS = ["a", "b", "c"]
 BOUNDARY_NUMBERS = ["0", "-0.0", "0.1", "999999", "1000000", "1234567", "1234568", "9007199254740991",
-                    "9007199254740992", "9007199254740993", "1e21", "5e-324", "-7", "7", "7.5", "2", "3.14"]
+                    "9007199254740992", "9007199254740993", "1e21", "5e-324", "-7", "7", "7.5", "2", "3.14",
+                    # floats with more than six significant digits (a float that meets a string is its %g text of six digits)
+                    "3.1415926", "1234.5678", "1234567.5", "0.000012345678", "123456789.125", "2.0000001", "999999.5"]
 QUERY_NUMBERS = ["0", "1", "2", "7", "7.5", "0.1", "999999", "1000000", "1234567", "1234568", "3.14",
                  "9007199254740992", "9007199254740993", "1e21"]
 STRINGS = ["", "x", "xy", "abc", "1", "7", "1000000", "1e+06", "7.5", "true", "null", "0.5", "Chevrolet", " a b ",
+           "3.14159", "3.1415926", "1234.57", "1234.5678", "1.23457e+06", "1.23457e-05", "1.23457e+08", "2", "1e+06",
            "inf", "Infinity", "-inf", "NaN", "+Inf", "infinity", "nan", ".5", "-x"]
 REGEXES = ["^x", "y$", "a.c", "^[0-9]+$", "e[+]06", "^$", "Chev.*", "^1"]
 
